@@ -89,8 +89,11 @@ func (ctx *Context) Parse(value string) error {
 	if ctx.Config.ParseExprLimit != 0 {
 		p.maxExprCnt = ctx.Config.ParseExprLimit
 	}
-	// 设置错误消息语言
-	SetParseErrorLanguage(ctx.Config.ParseErrorLanguage)
+	// 设置错误消息语言: 只作用于本次解析，不写全局变量(多个VM可并发使用不同语言)
+	lang := ctx.Config.ParseErrorLanguage
+	p.errorFormatter = func(pos position, input []byte, expected []string) error {
+		return formatFriendlyErrorLang(lang, pos, input, expected)
+	}
 	_, err := p.parse(nil)
 	if err != nil {
 		ctx.Error = err
